@@ -89,6 +89,7 @@ type scope struct {
 	Label     string `json:"label"`     // label for marks/observations
 	CancelAt  string `json:"cancel_at"` // "", before_begin, in_business
 	NilConfig bool   `json:"nil_config"`
+	ShareConn bool   `json:"share_conn"` // nested scope: use the pinned connection and prepared statements of the enclosing scope
 }
 
 type step struct {
@@ -170,9 +171,11 @@ type runState struct {
 	tx    *sql.Tx
 	conn  *sql.Conn
 	stmts map[string]*sql.Stmt
+	// conn and stmts belong to the enclosing scope (share_conn): not closed here
+	borrowed bool
 }
 
-func runScope(parent context.Context, sc *scope, cs string) *scopeResult {
+func runScope(parent context.Context, sc *scope, cs string, outer ...*runState) *scopeResult {
 	res := &scopeResult{Label: sc.Label}
 	ctx := parent
 	if sc.FreshCtx {
@@ -211,6 +214,9 @@ func runScope(parent context.Context, sc *scope, cs string) *scopeResult {
 		res.CtxIn = observe(ctx)
 		mark(cs, "cb.enter", map[string]interface{}{"label": sc.Label, "xid": res.XidIn, "role": res.CtxIn.Role, "name": res.CtxIn.Name})
 		st := &runState{cs: cs, stmts: map[string]*sql.Stmt{}}
+		if sc.ShareConn && len(outer) > 0 && outer[0] != nil {
+			st.conn, st.stmts, st.borrowed = outer[0].conn, outer[0].stmts, true
+		}
 		var stepErr error
 		for i := range sc.Steps {
 			if stepErr != nil {
@@ -273,12 +279,15 @@ func runScope(parent context.Context, sc *scope, cs string) *scopeResult {
 }
 
 func (st *runState) cleanup() {
-	for _, s := range st.stmts {
-		s.Close()
-	}
 	if st.tx != nil {
 		st.tx.Rollback()
 		st.tx = nil
+	}
+	if st.borrowed {
+		return
+	}
+	for _, s := range st.stmts {
+		s.Close()
 	}
 	if st.conn != nil {
 		st.conn.Close()
@@ -363,7 +372,7 @@ func runStep(ctx context.Context, s *step, st *runState) (r stepResult) {
 			c()
 		}
 	case "scope":
-		r.Scope = runScope(ctx, s.Scope, st.cs)
+		r.Scope = runScope(ctx, s.Scope, st.cs, st)
 	case "conn_pin":
 		db := getDB(s.DB)
 		if db == nil {
